@@ -36,6 +36,10 @@ Inductive control :=
 Inductive phase :=
 | PNone                                                   (* never started *)
 | PDial (rest : list hostid) (deadline : N) (fhc : nat)   (* a dial round hangs until its 10 s timeout *)
+| PVerify (c : cid) (h : hostid) (fhc : nat) (r : option (vkind * N)) (until : N)
+      (* the pair-verify request is in flight on connection c (open, current, not secure); at [until]
+         the decisive answer r = Some (kind, delta) arrives, or (r = None) the 30 s request timeout of
+         InsecureHomeKitProtocol._send_lines fires *)
 | PPost (c : cid) (until : N)                             (* inside owner.connection_made(True) *)
 | PSleep (wake : N)                                       (* back-off sleep (interruptible) *)
 | PDoneOk | PDoneAuth | PCancelled.
@@ -67,7 +71,7 @@ Record st := mk_st {
   opn : list cid;
   waiters : list (nat * N);
   dials : list dial;
-  verifs : list (vkind * N);
+  verifs : list (vkind * N * N);
   nextcid : cid;
   now : N;
   subs : bool;
@@ -91,7 +95,7 @@ Definition set_ntasks (v : nat) (s : st) : st := {| hosts := hosts s; desc := de
 Definition set_opn (v : list cid) (s : st) : st := {| hosts := hosts s; desc := desc s; excl := excl s; closing := closing s; shut := shut s; cur := cur s; secure := secure s; ph := ph s; nfail := nfail s; imm := imm s; ntasks := ntasks s; opn := v; waiters := waiters s; dials := dials s; verifs := verifs s; nextcid := nextcid s; now := now s; subs := subs s; supsub := supsub s; tie := tie s; fuel_out := fuel_out s; adv_out := adv_out s; trace := trace s |}.
 Definition set_waiters (v : list (nat * N)) (s : st) : st := {| hosts := hosts s; desc := desc s; excl := excl s; closing := closing s; shut := shut s; cur := cur s; secure := secure s; ph := ph s; nfail := nfail s; imm := imm s; ntasks := ntasks s; opn := opn s; waiters := v; dials := dials s; verifs := verifs s; nextcid := nextcid s; now := now s; subs := subs s; supsub := supsub s; tie := tie s; fuel_out := fuel_out s; adv_out := adv_out s; trace := trace s |}.
 Definition set_dials (v : list dial) (s : st) : st := {| hosts := hosts s; desc := desc s; excl := excl s; closing := closing s; shut := shut s; cur := cur s; secure := secure s; ph := ph s; nfail := nfail s; imm := imm s; ntasks := ntasks s; opn := opn s; waiters := waiters s; dials := v; verifs := verifs s; nextcid := nextcid s; now := now s; subs := subs s; supsub := supsub s; tie := tie s; fuel_out := fuel_out s; adv_out := adv_out s; trace := trace s |}.
-Definition set_verifs (v : list (vkind * N)) (s : st) : st := {| hosts := hosts s; desc := desc s; excl := excl s; closing := closing s; shut := shut s; cur := cur s; secure := secure s; ph := ph s; nfail := nfail s; imm := imm s; ntasks := ntasks s; opn := opn s; waiters := waiters s; dials := dials s; verifs := v; nextcid := nextcid s; now := now s; subs := subs s; supsub := supsub s; tie := tie s; fuel_out := fuel_out s; adv_out := adv_out s; trace := trace s |}.
+Definition set_verifs (v : list (vkind * N * N)) (s : st) : st := {| hosts := hosts s; desc := desc s; excl := excl s; closing := closing s; shut := shut s; cur := cur s; secure := secure s; ph := ph s; nfail := nfail s; imm := imm s; ntasks := ntasks s; opn := opn s; waiters := waiters s; dials := dials s; verifs := v; nextcid := nextcid s; now := now s; subs := subs s; supsub := supsub s; tie := tie s; fuel_out := fuel_out s; adv_out := adv_out s; trace := trace s |}.
 Definition set_nextcid (v : cid) (s : st) : st := {| hosts := hosts s; desc := desc s; excl := excl s; closing := closing s; shut := shut s; cur := cur s; secure := secure s; ph := ph s; nfail := nfail s; imm := imm s; ntasks := ntasks s; opn := opn s; waiters := waiters s; dials := dials s; verifs := verifs s; nextcid := v; now := now s; subs := subs s; supsub := supsub s; tie := tie s; fuel_out := fuel_out s; adv_out := adv_out s; trace := trace s |}.
 Definition set_now (v : N) (s : st) : st := {| hosts := hosts s; desc := desc s; excl := excl s; closing := closing s; shut := shut s; cur := cur s; secure := secure s; ph := ph s; nfail := nfail s; imm := imm s; ntasks := ntasks s; opn := opn s; waiters := waiters s; dials := dials s; verifs := verifs s; nextcid := nextcid s; now := v; subs := subs s; supsub := supsub s; tie := tie s; fuel_out := fuel_out s; adv_out := adv_out s; trace := trace s |}.
 Definition set_subs (v : bool) (s : st) : st := {| hosts := hosts s; desc := desc s; excl := excl s; closing := closing s; shut := shut s; cur := cur s; secure := secure s; ph := ph s; nfail := nfail s; imm := imm s; ntasks := ntasks s; opn := opn s; waiters := waiters s; dials := dials s; verifs := verifs s; nextcid := nextcid s; now := now s; subs := v; supsub := supsub s; tie := tie s; fuel_out := fuel_out s; adv_out := adv_out s; trace := trace s |}.
@@ -103,6 +107,7 @@ Definition set_trace (v : list (N * ev)) (s : st) : st := {| hosts := hosts s; d
 
 Definition TEN_S : N := 40960.
 Definition SIXTY_S : N := 245760.
+Definition THIRTY_S : N := 122880.     (* the request timeout of _send_lines *)
 
 (* min(60, 0.5 * 1.5^n) seconds in ticks: 2048 * 3^n / 2^n, exact for n <= 11 *)
 Definition sleep_ticks (n : nat) : N :=
@@ -121,7 +126,7 @@ Definition connected (s : st) : bool :=
   match cur s with Some _ => secure s | None => false end.
 
 Definition running (s : st) : bool :=
-  match ph s with PDial _ _ _ | PPost _ _ | PSleep _ => true | _ => false end.
+  match ph s with PDial _ _ _ | PVerify _ _ _ _ _ | PPost _ _ | PSleep _ => true | _ => false end.
 
 (* HomeKitConnection._drop_transport: close the transport if open, forget it *)
 Definition drop_transport (s : st) : st :=
@@ -153,30 +158,45 @@ Definition fail_other (s : st) : st := backoff (drop_transport s).
 
 Definition pop_dial (s : st) : dial * st :=
   match dials s with [] => (DRefused, s) | d :: r => (d, set_dials r s) end.
-Definition pop_verif (s : st) : (vkind * N) * st :=
-  match verifs s with [] => ((VOk, 0%N), s) | v :: r => (v, set_verifs r s) end.
+Definition pop_verif (s : st) : (vkind * N * N) * st :=
+  match verifs s with [] => ((VOk, 0%N, 0%N), s) | v :: r => (v, set_verifs r s) end.
 
-(* SecureHomeKitConnection._connect_once after the TCP connection is up *)
+(* SecureHomeKitConnection._connect_once once the pair-verify exchange on the current connection c
+   (to address h) is decided: r = Some (kind, delta) is the accessory's decisive answer, r = None
+   the 30 s request timeout (transport closed, AccessoryDisconnectedError: a HomeKitException,
+   i.e. class "other": drop the transport, back off) *)
+Definition verify_done (cont : st -> st) (fhc : nat) (h : hostid) (c : cid) (r : option (vkind * N)) (s : st) : st :=
+  match r with
+  | None => fail_other s
+  | Some (k, delta) =>
+      match vclass_of k with
+      | KOther => fail_other s
+      | KAuth => finish PDoneAuth (drop_transport s)
+      | KWrong =>
+          let s := set_excl (if mem_nat h (excl s) then excl s else excl s ++ [h]) s in
+          let s := drop_transport s in
+          if (fhc <? length (excl s)) && negb (subset_nat (hosts s) (excl s))
+          then cont (set_imm (S (imm s)) s)          (* `continue`: next address, no back-off *)
+          else backoff s
+      | KOk =>
+          let s := set_secure true s in
+          if subs s && supsub s && negb (N.eqb delta 0) then set_ph (PPost c (now s + delta)) s
+          else finish PDoneOk s
+      end
+  end.
+
+(* SecureHomeKitConnection._connect_once after the TCP connection is up: the pair-verify request is
+   sent; its decisive answer takes vd ticks (0: same tick; >= 30 s: never in time) *)
 Definition after_connect (cont : st -> st) (fhc : nat) (h : hostid) (s : st) : st :=
   let c := nextcid s in
   let s := set_cur (Some c) (set_opn (opn s ++ [c]) (set_nextcid (S c) s)) in
   let s := emit (EvOpened c h) s in
-  let '((k, delta), s) := pop_verif s in
+  let '((k, delta, vd), s) := pop_verif s in
   let s := emit (EvVerify c k) s in
-  match vclass_of k with
-  | KOther => fail_other s
-  | KAuth => finish PDoneAuth (drop_transport s)
-  | KWrong =>
-      let s := set_excl (if mem_nat h (excl s) then excl s else excl s ++ [h]) s in
-      let s := drop_transport s in
-      if (fhc <? length (excl s)) && negb (subset_nat (hosts s) (excl s))
-      then cont (set_imm (S (imm s)) s)          (* `continue`: next address, no back-off *)
-      else backoff s
-  | KOk =>
-      let s := set_secure true s in
-      if subs s && supsub s && negb (N.eqb delta 0) then set_ph (PPost c (now s + delta)) s
-      else finish PDoneOk s
-  end.
+  if N.eqb vd 0 then verify_done cont fhc h c (Some (k, delta)) s
+  else if N.ltb vd THIRTY_S then set_ph (PVerify c h fhc (Some (k, delta)) (now s + vd)) s
+  else set_ph (PVerify c h fhc None (now s + THIRTY_S))
+              (if N.eqb vd THIRTY_S then set_tie true s else s).   (* answer and timeout on one tick *)
 
 (* the happy-eyeballs rounds of HomeKitConnection._connect_once (IPv4 candidates, interleave 1) *)
 Fixpoint rounds (cont : st -> st) (fhc : nat) (cands : list hostid) (s : st) : st :=
@@ -258,6 +278,12 @@ Definition lose_current (reset : bool) (c : cid) (s : st) : st :=
       if reset then backoff s                 (* _lost_during_setup: the connector retries *)
       else let s := finish PDoneOk s in       (* pending request failed first; connector returned *)
            if closing s then s else start_connector s
+  | PVerify _ _ _ _ _ =>
+      (* the pending pair-verify request fails with AccessoryDisconnectedError (FIN: eof_received
+         fails it, the connector drops the transport before connection_lost arrives; RST:
+         connection_lost drops it and sets _lost_during_setup, then the request fails): in both
+         orders the connector takes the HomeKitException branch and backs off *)
+      backoff s
   | PDial _ _ _ | PSleep _ => s               (* unreachable: no current connection in these phases *)
   | _ => if closing s then s else start_connector s
   end.
@@ -299,7 +325,7 @@ Definition apply_control (c : control) (s : st) : st :=
 (* ---- timers ---- *)
 Definition phase_timer (s : st) : option N :=
   match ph s with
-  | PDial _ d _ => Some d | PPost _ u => Some u | PSleep w => Some w | _ => None
+  | PDial _ d _ => Some d | PVerify _ _ _ _ u => Some u | PPost _ u => Some u | PSleep w => Some w | _ => None
   end.
 
 Fixpoint min_waiter (l : list (nat * N)) : option (nat * N) :=
@@ -329,6 +355,7 @@ Definition fire (x : timer) (s : st) : st :=
   | TPhase _ =>
       match ph s with
       | PDial rest _ fhc => rounds (attempt_loop (fuel_of s)) fhc rest s
+      | PVerify c h fhc r _ => verify_done (attempt_loop (fuel_of s)) fhc h c r s
       | PPost _ _ => finish PDoneOk s
       | PSleep _ => attempt s
       | _ => s
@@ -351,7 +378,7 @@ Fixpoint advance (fuel : nat) (t : N) (s : st) : st :=
   end.
 
 Definition advance_fuel (t : N) (s : st) : nat :=
-  N.to_nat ((t - now s) / 3072) + length (waiters s) + 4.
+  N.to_nat ((t - now s) / 3072) + length (waiters s) + length (verifs s) + 4.
 
 Definition snap (final : bool) (s : st) : st :=
   emit (EvSnap final (opn s) (connected s) (ntasks s)) s.
@@ -360,10 +387,10 @@ Definition step (tc : N * control) (s : st) : st :=
   let s := advance (advance_fuel (fst tc) s) (fst tc) s in
   apply_control (snd tc) (snap false s).
 
-Definition init (hs : list hostid) (sb : bool) (ds : list dial) (vs : list (vkind * N)) : st :=
+Definition init (hs : list hostid) (sb : bool) (ds : list dial) (vs : list (vkind * N * N)) : st :=
   mk_st hs hs [] false false None false PNone 0 0 0 [] [] ds vs 1 0%N sb true false false false [].
 
-Definition run (hs : list hostid) (sb : bool) (ds : list dial) (vs : list (vkind * N))
+Definition run (hs : list hostid) (sb : bool) (ds : list dial) (vs : list (vkind * N * N))
            (controls : list (N * control)) (end_ : N) : st :=
   let s := fold_left (fun s tc => step tc s) controls (init hs sb ds vs) in
   snap true (advance (advance_fuel end_ s) end_ s).
